@@ -64,7 +64,7 @@ SUITE_KEY_STRINGS = {'password', 'ipmi_password', 'passwords',
                      'KeystoneFernetKey1', 'keystonecredential0'}
 
 MAPPING_TYPES = ('dict', 'OrderedDict', 'defaultdict', 'MappingProxyType',
-                 'UserDict', 'ChainMap', 'custom')
+                 'UserDict', 'ChainMap', 'custom', 'lazy')
 
 
 class FrozenMap(collections.abc.Mapping):
@@ -96,6 +96,40 @@ class FrozenMap(collections.abc.Mapping):
 
     def __repr__(self):
         return 'FrozenMap(%r)' % (list(zip(self._keys, self._vals)),)
+
+
+class LazyMap(collections.abc.Mapping):
+    """A read-only view that builds its nested mappings anew on every
+    access (like a proxy over a config tree): each lookup hands out a fresh,
+    short-lived object, so object identities are recycled quickly."""
+
+    def __init__(self, pairs_spec):
+        # (built key, value spec) - nested mapping specs stay specs
+        self._items = []
+        for k, vspec in pairs_spec:
+            kk = build_key(k)
+            for i, (k0, _v) in enumerate(self._items):
+                if type(k0) is type(kk) and k0 == kk:
+                    self._items[i] = (kk, vspec)
+                    break
+            else:
+                self._items.append((kk, vspec))
+
+    def __getitem__(self, key):
+        for k, vspec in self._items:
+            if k == key and type(k) is type(key):
+                return build_value(vspec)
+        raise KeyError(key)
+
+    def __iter__(self):
+        return iter([k for k, _v in self._items])
+
+    def __len__(self):
+        return len(self._items)
+
+    def __repr__(self):
+        return 'LazyMap(%s)' % json.dumps([[repr(k), v] for k, v in
+                                           self._items], sort_keys=True)
 
 
 class _Opaque:
@@ -170,8 +204,10 @@ def build_mapping(spec, memo=None):
 
 
 def _build_mapping(spec, memo):
-    pairs = [(build_key(k), build_value(v, memo)) for k, v in spec['items']]
     m = spec['m']
+    if m == 'lazy':
+        return LazyMap(spec['items'])
+    pairs = [(build_key(k), build_value(v, memo)) for k, v in spec['items']]
     if m == 'dict':
         return dict(pairs)
     if m == 'OrderedDict':
@@ -239,17 +275,24 @@ def key_verdict(k, extra):
     return 'pass'
 
 
-def snapshot(x):
+def snapshot(x, stable=True):
+    """Structure, reprs and (where objects are stored rather than built on
+    access) identities of everything reachable from x."""
     if isinstance(x, collections.abc.Mapping):
-        return ('M', type(x).__name__, id(x),
-                tuple((type(k).__name__, id(k), repr(k), snapshot(v))
+        inner = stable and not isinstance(x, LazyMap)
+        return ('M', type(x).__name__, id(x) if stable else 0,
+                tuple((type(k).__name__, id(k) if stable else 0, repr(k),
+                       snapshot(v, inner))
                       for k, v in x.items()))
     if isinstance(x, (list, tuple)):
-        return ('L', type(x).__name__, id(x), tuple(snapshot(e) for e in x))
-    return ('V', type(x).__name__, id(x), repr(x))
+        return ('L', type(x).__name__, id(x) if stable else 0,
+                tuple(snapshot(e, stable) for e in x))
+    return ('V', type(x).__name__, id(x) if stable else 0, repr(x))
 
 
-def compare(col, sub, case, arg, res, secret, strutils, extra, path):
+def compare(col, sub, case, arg, res, secret, strutils, extra, path,
+            lazy=False):
+    lazy = lazy or isinstance(arg, LazyMap)
     def bad(msg):
         raise Violation(sub, 'at %s: %s' % ('/'.join(path) or '<top>', msg),
                         case)
@@ -267,12 +310,18 @@ def compare(col, sub, case, arg, res, secret, strutils, extra, path):
         if isinstance(v, collections.abc.Mapping):
             if not isinstance(r, collections.abc.Mapping):
                 bad('mapping under key %r became %r' % (k, r))
-            compare(col, sub, case, v, r, secret, strutils, extra, here)
+            compare(col, sub, case, v, r, secret, strutils, extra, here,
+                    lazy)
             continue
         verdict = key_verdict(k, extra)
         if isinstance(v, str):
             passed = strutils.mask_password(v, secret)
             same = isinstance(r, str) and r == passed
+        elif lazy:
+            # built anew on every access: "returned as it is" can only mean
+            # equal in type, structure and content
+            passed = v
+            same = snapshot(r, False) == snapshot(v, False)
         else:
             passed = v
             same = r is v
